@@ -433,6 +433,37 @@ func checkCrash(rec *Recorded, img crashImage, prop string) []Violation {
 				}
 			}
 		}
+		// life goes on after the recovery: leftovers of the interrupted call (temporary
+		// files) must not damage later writes. Shrink everything (shorter schema and
+		// object files than anything written before), close, load again.
+		if len(viol) > 0 {
+			return
+		}
+		for u := range files2 {
+			small := &Rec{K: "z" + u[:4], N: int64(len(u))}
+			small.Initialize(u)
+			if err := db.InsertOrUpdate(small); err != nil {
+				fail("write-after-recovery", "an update after the recovery fails: "+err.Error())
+				return
+			}
+			break
+		}
+		if err := db.DeleteAll(&Rec{}); err != nil {
+			fail("write-after-recovery", "DeleteAll after the recovery fails: "+err.Error())
+			return
+		}
+		if err := db.Close(); err != nil {
+			fail("write-after-recovery", "Close after the recovery fails: "+err.Error())
+			return
+		}
+		db3 := sod.Open(dbRoot)
+		if _, err := db3.Schema(&Rec{}); err != nil {
+			fail("unreadable-after-later-writes", "the collection was recovered, written to and closed; it cannot be loaded any more: "+err.Error())
+			return
+		}
+		if n, err := db3.Count(&Rec{}); err != nil || n != 0 {
+			fail("unreadable-after-later-writes", fmt.Sprintf("after recovery, DeleteAll and Close a new handle counts (%d, %v)", n, err))
+		}
 	})
 	for _, p := range x.Panics {
 		fail("panic|"+firstLine(p.Value), "panic during recovery: "+p.Value+"\n"+trimStack(p.Stack))
